@@ -1,9 +1,29 @@
 import ModVerif.Drv.Util
+import ModVerif.Model.Pseudo
 namespace ModVerif.Drv.Pseudo
-open ModVerif ModVerif.Drv
+open ModVerif ModVerif.Drv ModVerif.Pseudo
 
-/-- stub: no ops modelled yet -/
+def showRes : Except Err Bytes → String
+  | .ok b => xh b
+  | .error e => e.show
+
+def showOpt : Option Bytes → String
+  | some b => xh b
+  | none => "panic"
+
 def handle : Handler
+  | "pseudoversion", [maj, older, secs, rev] => do
+      let maj ← hx maj; let older ← hx older; let secs ← secs.toInt?; let rev ← hx rev
+      pure (showRes (pseudoVersion maj older (formatUnix secs) rev))
+  | "format", [secs] => do let secs ← secs.toInt?; pure (xh (formatUnix secs))
+  | "zeropseudo", [maj] => do let maj ← hx maj; pure (showRes (zeroPseudoVersion maj))
+  | "ispseudo", [v] => do let v ← hx v; pure (showBool (isPseudoVersion v))
+  | "iszeropseudo", [v] => do let v ← hx v; pure (showBool (isZeroPseudoVersion v))
+  | "base", [v] => do let v ← hx v; pure (showRes (pseudoVersionBase v))
+  | "rev", [v] => do let v ← hx v; pure (showRes (pseudoVersionRev v))
+  | "time", [v] => do let v ← hx v; pure (showRes (pseudoVersionTime v))
+  | "incdecimal", [d] => do let d ← hx d; pure (showOpt (incDecimal d))
+  | "decdecimal", [d] => do let d ← hx d; pure (xh (decDecimal d))
   | _, _ => none
 
 end ModVerif.Drv.Pseudo
